@@ -399,6 +399,27 @@ func (x *Exec) chanRecv(s *State, e *ast.UnaryExpr, commaOk bool) Val {
 	v := s.freshVal("recv", ct.Elem())
 	x.eng.note("channel receives yield arbitrary values (no channel content model)")
 	_ = ch
+	// a receive from ctx.Done() means the context is done: ctx.Err() is non-nil from now on
+	if call, ok := unparen(e.X).(*ast.CallExpr); ok {
+		if sel, ok := unparen(call.Fun).(*ast.SelectorExpr); ok && sel.Sel.Name == "Done" && len(call.Args) == 0 {
+			if s.ctxDone == nil {
+				s.ctxDone = map[string]bool{}
+			}
+			s.ctxDone[exprString(sel.X)] = true
+		}
+	}
+	// contract option recv_nonnil: pointers/interfaces sent on the channels of this function are never nil
+	if tc := x.topContract(); tc != nil && tc.Opts["recv_nonnil"] != "" && !commaOk {
+		switch v.K {
+		case KInt:
+			if _, isPtr := under(ct.Elem()).(*types.Pointer); isPtr {
+				s.assume(mkNot(mkEq(v.S, "0")))
+				x.eng.note("values received from channels in " + x.eng.curTop.name + " are assumed non-nil (contract option recv_nonnil)")
+			}
+		case KIface:
+			s.assume(mkNot(mkEq(v.Tag, "0")))
+		}
+	}
 	if commaOk {
 		ok := s.freshVal("recvok", types.Typ[types.Bool])
 		return Val{K: KTuple, Fs: []Val{v, ok}}
